@@ -32,12 +32,13 @@ type mk struct {
 	cfg  string
 	new  func() core.MeasurementInterface
 	// warm: number of leading samples for which the value must be the arithmetic mean (0 = none);
-	hull    bool // value must stay in [min,max] of the samples since reset
-	min     bool
-	last    bool
-	nonneg  bool
-	flagTol float64 // relative change of Get() below which the flag is not required
-	warm    func() int
+	hull       bool // value must stay in [min,max] of the samples since reset
+	min        bool
+	last       bool
+	nonneg     bool
+	flagTol    float64 // relative change of Get() below which the flag is not required
+	warm       func() int
+	aAvg, aVar float64 // variance: the two smoothing factors
 }
 
 func sample(r *rand.Rand, pool *[]float64) float64 {
@@ -101,7 +102,7 @@ func genKinds(r *rand.Rand) mk {
 			}, warm: func() int { return ms - 1 }}
 	case 4:
 		a, b := alpha(r), alpha(r)
-		return mk{kind: "variance", cfg: fmt.Sprintf("alphaAvg=%g alphaVar=%g", a, b), nonneg: true, flagTol: 1e-9,
+		return mk{kind: "variance", cfg: fmt.Sprintf("alphaAvg=%g alphaVar=%g", a, b), nonneg: true, flagTol: 1e-9, aAvg: a, aVar: b,
 			new: func() core.MeasurementInterface {
 				m, err := measurements.NewSimpleMovingVariance(a, b)
 				if err != nil {
@@ -191,10 +192,21 @@ func lockstep(idx int64, m mk, ops []op) (changes int) {
 		}
 		rt.Violation("C18/"+m.kind+"/"+sig, idx, extra)
 	}
+	// the moving variance is, by its name, a moving average (alphaVariance) of the squared deviations of each sample from
+	// the moving average (alphaAverage) of the samples before it: composed here from two public moving averages
+	var refAvg, refVar core.MeasurementInterface
+	newRef := func() {
+		if m.kind == "variance" {
+			refAvg, _ = measurements.NewSimpleExponentialMovingAverage(m.aAvg)
+			refVar, _ = measurements.NewSimpleExponentialMovingAverage(m.aVar)
+		}
+	}
+	newRef()
 	for i, o := range ops {
 		switch o.K {
 		case "reset":
 			inst.Reset()
+			newRef()
 			sinceReset, dirty = sinceReset[:0], false
 			lo, hi, sum = math.Inf(1), math.Inf(-1), 0
 			if g := inst.Get(); g != 0 {
@@ -258,6 +270,17 @@ func lockstep(idx int64, m mk, ops []op) (changes int) {
 				continue
 			}
 			n := len(sinceReset)
+			if refVar != nil {
+				if n > 1 {
+					d := o.V - refAvg.Get()
+					refVar.Add(d * d)
+				}
+				refAvg.Add(o.V)
+				if want := refVar.Get(); math.Abs(after-want) > relTol*math.Max(math.Abs(want), 1e-300) {
+					viol("variance-differs-from-the-moving-average-of-squared-deviations", i, rt.J{"get": after, "want": want, "n": n})
+				}
+				rt.Count("variance_model_checks", 1)
+			}
 			if m.min && after != lo {
 				viol("not-minimum-since-reset", i, rt.J{"get": after, "want": lo})
 			}
